@@ -67,12 +67,13 @@ const (
 	formParseResult
 	formProto
 	formParseResultNoAST
+	formLinkedProto
 	nForms
 )
 
-var formNames = []string{"source", "ast", "parse-result", "proto", "parse-result-without-ast"}
+var formNames = []string{"source", "ast", "parse-result", "proto", "parse-result-without-ast", "compiled-proto (linked, with its source info)"}
 
-func (s *supplied) resolver(assign map[string]int) protocompile.Resolver {
+func (s *supplied) resolver(assign map[string]int, linked map[string]*descriptorpb.FileDescriptorProto) protocompile.Resolver {
 	return protocompile.WithStandardImports(protocompile.ResolverFunc(func(name string) (protocompile.SearchResult, error) {
 		text, ok := s.src[name]
 		if !ok {
@@ -87,6 +88,8 @@ func (s *supplied) resolver(assign map[string]int) protocompile.Resolver {
 			return protocompile.SearchResult{Proto: s.proto[name]}, nil
 		case formParseResultNoAST:
 			return protocompile.SearchResult{ParseResult: s.noast[name]}, nil
+		case formLinkedProto:
+			return protocompile.SearchResult{Proto: linked[name]}, nil
 		}
 		return protocompile.SearchResult{Source: strings.NewReader(text)}, nil
 	}))
@@ -109,7 +112,7 @@ func (s *supplied) snapshot() map[string][]byte {
 func TestC09(t *testing.T) {
 	r := vlib.Start(t, "C09")
 	defer r.Finish()
-	r.Extra("rule", "accepted generated models of 1-4 files; per model A assignments of input form {source, AST, parse result, unlinked proto, parse result without AST} per file (all 5^n when that is at most A, A sampled otherwise; A=8 quick, 40 thorough) "+
+	r.Extra("rule", "accepted generated models of 1-4 files; per model A assignments of input form {source, AST, parse result, unlinked proto, parse result without AST, the compiled proto of the all-source run incl. its source info} per file (all 5^n when that is at most A, A sampled otherwise; A=8 quick, 40 thorough) "+
 		"x source-info modes {none, standard, extra-comments, extra-option-locations}; each assignment also run twice concurrently sharing the supplied objects under the race detector; "+
 		"supplied protos / parse results snapshotted (deterministic bytes) before and after. non-trivial = assignment using >=2 distinct forms or a non-source form; distinct = (model, assignment, mode)")
 	r.Extra("assumptions", []string{"the all-source compilation is the reference result", "deterministic marshalling detects any modification of a supplied proto"})
@@ -136,113 +139,180 @@ func TestC09(t *testing.T) {
 			r.Inconclusive("render: " + err.Error())
 			return
 		}
-		names := m.Names()
-		ref := map[protocompile.SourceInfoMode]*gen.Outcome{}
-		for _, mode := range modes {
-			ref[mode] = gen.Compile(src, names, gen.Opts{SourceInfo: mode})
-			if !ref[mode].OK() {
-				r.Class("skipped:rejected (decided by C01)")
-				return
-			}
-		}
-		sup, err := supply(src)
-		if err != nil {
-			r.Inconclusive("supply: " + err.Error())
+		checkForms(r, id, i, rng, src, m.Names(), modes, A)
+	})
+	lf := c09LiteralFiles()
+	r.Par(len(lf), func(i int) {
+		id := fmt.Sprintf("lit/%d", i)
+		if !r.Want(id) {
 			return
 		}
-		before := sup.snapshot()
-		total := 1
-		for range names {
-			total *= nForms
+		checkForms(r, id, i, r.Rng(id), lf[i], []string{"lit.proto"}, modes, nForms)
+		r.Class("awkward-literal file")
+	})
+}
+
+// checkForms compiles one source set under A assignments of input forms and compares with the all-source run.
+func checkForms(r *vlib.Run, id string, i int, rng *vlib.RNG, src map[string]string, names []string, modes []protocompile.SourceInfoMode, A int) {
+	ref := map[protocompile.SourceInfoMode]*gen.Outcome{}
+	for _, mode := range modes {
+		ref[mode] = gen.Compile(src, names, gen.Opts{SourceInfo: mode})
+		if !ref[mode].OK() {
+			r.Class("skipped:rejected (decided by C01)")
+			return
 		}
-		for a := 0; a < A && a < total; a++ {
-			code := a
-			if total > A {
-				code = rng.Intn(total)
-			}
-			assign := map[string]int{}
-			forms := map[int]bool{}
-			var desc []string
-			c := code
-			for _, nme := range names {
-				assign[nme] = c % nForms
-				forms[c%nForms] = true
-				desc = append(desc, nme+"="+formNames[c%nForms])
-				c /= nForms
-			}
-			mode := modes[(a+i)%len(modes)]
-			aid := fmt.Sprintf("%s/a%d/m%d", id, code, mode)
-			if !r.Want(aid) {
+	}
+	sup, err := supply(src)
+	if err != nil {
+		r.Inconclusive("supply: " + err.Error())
+		return
+	}
+	before := sup.snapshot()
+	total := 1
+	for range names {
+		total *= nForms
+	}
+	for a := 0; a < A && a < total; a++ {
+		code := a
+		if total > A {
+			code = rng.Intn(total)
+		}
+		assign := map[string]int{}
+		forms := map[int]bool{}
+		var desc []string
+		c := code
+		for _, nme := range names {
+			assign[nme] = c % nForms
+			forms[c%nForms] = true
+			desc = append(desc, nme+"="+formNames[c%nForms])
+			c /= nForms
+		}
+		mode := modes[(a+i)%len(modes)]
+		aid := fmt.Sprintf("%s/a%d/m%d", id, code, mode)
+		if !r.Want(aid) {
+			continue
+		}
+		key := aid
+		if len(forms) == 1 && forms[formSource] {
+			key = ""
+		}
+		// the output of the all-source compilation in the same mode, handed back as input
+		linked := map[string]*descriptorpb.FileDescriptorProto{}
+		for nme, p := range allProtos(ref[mode].Files) {
+			linked[nme] = proto.Clone(p).(*descriptorpb.FileDescriptorProto)
+		}
+		linkedBefore := map[string][]byte{}
+		for nme, p := range linked {
+			linkedBefore[nme] = detBytes(p)
+		}
+		// two concurrent compilations sharing the supplied objects
+		var outs [2]*gen.Outcome
+		var wg sync.WaitGroup
+		for k := 0; k < 2; k++ {
+			wg.Add(1)
+			go func(k int) {
+				defer wg.Done()
+				outs[k] = gen.CompileWith(sup.resolver(assign, linked), names, gen.Opts{SourceInfo: mode, Par: 1 + k*3})
+			}(k)
+		}
+		wg.Wait()
+		r.Eval(key)
+		w := map[string]any{"sources": src, "assignment": desc, "source_info_mode": int(mode)}
+		for k := 0; k < 2; k++ {
+			out := outs[k]
+			if !out.OK() {
+				w["errors"] = out.ErrSummary()
+				kind := "c09.form-rejected"
+				if out.Panic != nil {
+					kind = "compile.panic"
+				}
+				r.Violation(kind, strings.Join(formsUsed(forms), "+")+": "+classifyErr(out.ErrSummary()), aid, w)
 				continue
 			}
-			key := aid
-			if len(forms) == 1 && forms[formSource] {
-				key = ""
-			}
-			// two concurrent compilations sharing the supplied objects
-			var outs [2]*gen.Outcome
-			var wg sync.WaitGroup
-			for k := 0; k < 2; k++ {
-				wg.Add(1)
-				go func(k int) {
-					defer wg.Done()
-					outs[k] = gen.CompileWith(sup.resolver(assign), names, gen.Opts{SourceInfo: mode, Par: 1 + k*3})
-				}(k)
-			}
-			wg.Wait()
-			r.Eval(key)
-			w := map[string]any{"sources": src, "assignment": desc, "source_info_mode": int(mode)}
-			for k := 0; k < 2; k++ {
-				out := outs[k]
-				if !out.OK() {
-					w["errors"] = out.ErrSummary()
-					kind := "c09.form-rejected"
-					if out.Panic != nil {
-						kind = "compile.panic"
-					}
-					r.Violation(kind, strings.Join(formsUsed(forms), "+")+": "+classifyErr(out.ErrSummary()), aid, w)
+			got := allProtos(out.Files)
+			want := allProtos(ref[mode].Files)
+			for _, nme := range names {
+				g, wn := got[nme], want[nme]
+				if g == nil || wn == nil {
+					r.Violation("c09.file-missing", "file missing from results", aid, w)
 					continue
 				}
-				got := allProtos(out.Files)
-				want := allProtos(ref[mode].Files)
-				for _, nme := range names {
-					g, wn := got[nme], want[nme]
-					if g == nil || wn == nil {
-						r.Violation("c09.file-missing", "file missing from results", aid, w)
-						continue
-					}
-					gc, wc := proto.Clone(g).(*descriptorpb.FileDescriptorProto), proto.Clone(wn).(*descriptorpb.FileDescriptorProto)
-					gsi, wsi := gc.SourceCodeInfo, wc.SourceCodeInfo
-					gc.SourceCodeInfo, wc.SourceCodeInfo = nil, nil
-					if !bytes.Equal(detBytes(gc), detBytes(wc)) {
-						d := gen.Diff(gc, wc)
-						w["diff form!=all-source"] = d
+				gc, wc := proto.Clone(g).(*descriptorpb.FileDescriptorProto), proto.Clone(wn).(*descriptorpb.FileDescriptorProto)
+				gsi, wsi := gc.SourceCodeInfo, wc.SourceCodeInfo
+				gc.SourceCodeInfo, wc.SourceCodeInfo = nil, nil
+				if !bytes.Equal(detBytes(gc), detBytes(wc)) {
+					d := gen.Diff(gc, wc)
+					w["diff form!=all-source"] = d
+					w["file"] = nme
+					r.Violation("c09.form-differs", formNames[assign[nme]]+": "+gen.DiffClass(d), aid, w)
+					continue
+				}
+				// the descriptor view of the source locations is the proto's list
+				if lr := gen.AllResults(out.Files)[nme]; lr != nil {
+					if nv, np := lr.SourceLocations().Len(), len(g.GetSourceCodeInfo().GetLocation()); nv != np {
 						w["file"] = nme
-						r.Violation("c09.form-differs", formNames[assign[nme]]+": "+gen.DiffClass(d), aid, w)
-						continue
-					}
-					// forms that carry an AST must also agree on source info
-					if mode != protocompile.SourceInfoNone && assign[nme] != formProto && assign[nme] != formParseResultNoAST {
-						if !bytes.Equal(detBytes(gsi), detBytes(wsi)) {
-							w["file"] = nme
-							r.Violation("c09.source-info-differs", formNames[assign[nme]]+": source info differs from the all-source run", aid, w)
-						}
+						r.Violation("c09.source-locations-view-differs", fmt.Sprintf("%s: SourceLocations() of the result does not show the locations of its own descriptor proto", formNames[assign[nme]]), aid, w)
 					}
 				}
-			}
-			after := sup.snapshot()
-			for k, b := range before {
-				if !bytes.Equal(after[k], b) {
-					w["object"] = k
-					r.Violation("c09.input-mutated", strings.SplitN(k, ":", 2)[0]+" supplied by the resolver was modified", aid, w)
+				// forms that carry an AST (or the compiled source info itself) must also agree on source info
+				if mode != protocompile.SourceInfoNone && assign[nme] != formProto && assign[nme] != formParseResultNoAST {
+					if !bytes.Equal(detBytes(gsi), detBytes(wsi)) {
+						w["file"] = nme
+						r.Violation("c09.source-info-differs", formNames[assign[nme]]+": source info differs from the all-source run", aid, w)
+					}
 				}
-			}
-			r.Class("assignment-checked")
-			if i == 0 && a == 1 {
-				r.Sample("assignment", desc)
 			}
 		}
-	})
+		for nme, b := range linkedBefore {
+			if !bytes.Equal(detBytes(linked[nme]), b) {
+				w["object"] = "compiled-proto:" + nme
+				r.Violation("c09.input-mutated", "compiled proto supplied by the resolver was modified", aid, w)
+			}
+		}
+		after := sup.snapshot()
+		for k, b := range before {
+			if !bytes.Equal(after[k], b) {
+				w["object"] = k
+				r.Violation("c09.input-mutated", strings.SplitN(k, ":", 2)[0]+" supplied by the resolver was modified", aid, w)
+			}
+		}
+		r.Class("assignment-checked")
+		if i == 0 && a == 1 {
+			r.Sample("assignment", desc)
+		}
+	}
+}
+
+// c09LiteralFiles are files whose option values and defaults are written as literals that are awkward to convert
+// (integers next to float32 rounding midpoints, hex/octal, huge exponents, signs, inf/nan spellings): every input form must
+// arrive at the same value as the source form.
+func c09LiteralFiles() []map[string]string {
+	lits := []string{"1152921573326323713", "1152921573326323712", "16777217", "16777219", "9007199254740993", "18446744073709551615", "0x1000001", "0777", "1e39", "3.4028235e38", "3.4028236e38", "1e-46", "-0", "-16777217", "inf", "-inf", "nan", "1.0000001", "4.0000005"}
+	var out []map[string]string
+	for _, syn := range []string{"proto2", "editions"} {
+		head, opt := "syntax = \"proto2\";\n", "optional "
+		if syn == "editions" {
+			head, opt = "edition = \"2023\";\n", ""
+		}
+		for k := 0; k < len(lits); k += 3 {
+			var sb strings.Builder
+			sb.WriteString(head + "package lit;\nimport \"google/protobuf/descriptor.proto\";\n")
+			sb.WriteString("message O { " + opt + "float f = 1; " + opt + "double d = 2; repeated float rf = 3; }\n")
+			sb.WriteString("extend google.protobuf.FieldOptions { " + opt + "float of = 50001; " + opt + "double od = 50002; " + opt + "O om = 50003; }\n")
+			sb.WriteString("message M {\n")
+			for j, l := range lits[k:min(k+3, len(lits))] {
+				def := ""
+				if l != "nan" && !strings.Contains(l, "inf") || true {
+					def = "default = " + l + ", "
+				}
+				fmt.Fprintf(&sb, "  %sfloat a%d = %d [%s(of) = %s, (od) = %s, (om) = { f: %s d: %s rf: [%s, 1] }];\n", opt, j, 2*j+1, def, l, l, l, l, l)
+				fmt.Fprintf(&sb, "  %sdouble b%d = %d [%s(of) = %s];\n", opt, j, 2*j+2, def, l)
+			}
+			sb.WriteString("}\n")
+			out = append(out, map[string]string{"lit.proto": sb.String()})
+		}
+	}
+	return out
 }
 
 func formsUsed(forms map[int]bool) []string {
